@@ -332,7 +332,10 @@ func vfH_upgrade_logic() {
 				u.HandshakeTimeout = time.Second
 			}
 			faultAt = vfChoose(3)
-		case 12:
+		case 12: // plain valid handshake; handshake timeout on/off
+			if vfChoose(2) == 1 {
+				u.HandshakeTimeout = time.Second
+			}
 		}
 	}
 	// build the request the way net/http delivers it (canonical header keys)
@@ -456,13 +459,20 @@ func vfH_upgrade_logic() {
 		vfAssert(c.isServer, "c12-server-role")
 		// C16: open, no write deadline left armed
 		vfAssert(tc.closed == 0, "c16-open-on-success")
-		lastDL := -1
-		for i, op := range tc.ops {
-			if op.kind == vfOpSetWriteDeadline || op.kind == vfOpSetDeadline {
-				lastDL = i
+		// the read and the write deadline are tracked separately (SetDeadline sets both)
+		var rdl, wdl time.Time
+		for _, op := range tc.ops {
+			switch op.kind {
+			case vfOpSetDeadline:
+				rdl, wdl = op.t, op.t
+			case vfOpSetReadDeadline:
+				rdl = op.t
+			case vfOpSetWriteDeadline:
+				wdl = op.t
 			}
 		}
-		vfAssert(lastDL < 0 || tc.ops[lastDL].t.IsZero(), "c16-no-deadline-left-armed")
+		vfAssert(wdl.IsZero(), "c16-no-deadline-left-armed")
+		vfAssert(rdl.IsZero(), "c16-no-read-deadline-left-armed")
 		vfReach("upgrade-success")
 		return
 	}
